@@ -63,11 +63,14 @@ void *xmalloc(size_t n) { void *p = malloc(n); ASSUME(p != 0); return p; }
 /* typed pools (CBMC only): pointers stored into the byte arrays malloc/realloc model are read back as unsimplified byte_extracts, which
  * turns every scope lookup and instruction walk symbolic; hash-table key/value arrays and instruction arrays get typed objects instead */
 #ifndef REPLAY
-static struct mapkey kpool[16][64]; static void *vpool[16][64]; static int nkp, nvp;
+#ifndef MAPCAP
+#define MAPCAP 64      /* largest initial hash-table capacity in the sources (props/parselib.py:mapcap reads it from the tree) */
+#endif
+static struct mapkey kpool[16][MAPCAP]; static void *vpool[16][MAPCAP]; static int nkp, nvp;
 static void *ipool[48][32]; static int nip;
 void *xreallocarray(void *b, size_t n, size_t m) {
-	if (!b && m == sizeof(struct mapkey) && n <= 64 && nkp < 16) return kpool[nkp++];
-	if (!b && m == sizeof(void *) && n <= 64 && nvp < 16) return vpool[nvp++];
+	if (!b && m == sizeof(struct mapkey) && n <= MAPCAP && nkp < 16) return kpool[nkp++];
+	if (!b && m == sizeof(void *) && n <= MAPCAP && nvp < 16) return vpool[nvp++];
 	if (b && (m == sizeof(struct mapkey) || m == sizeof(void *))) PATH_END();          /* table growth beyond 64 entries is outside these skeletons */
 	if (b) {        /* byte/character buffers (string literals) grow by copy */
 		size_t old = __CPROVER_OBJECT_SIZE(b); char *q = malloc(n * m); ASSUME(q != 0);
